@@ -53,6 +53,13 @@ theorem tc_requeues_front (cfg : Cfg) (st : PState) (ev : Event) (h : ev.reply =
       ({ st with disableUdp := true, err := .msg, queue := ev.srv :: st.queue }, none) := by
   simp [processEvent, h]
 
+/-- a reply whose query case does not match is treated as spoofed: UDP is disabled, the server goes
+back to the front of the queue, the remembered error is left alone -/
+theorem cm_requeues_front (cfg : Cfg) (st : PState) (ev : Event) (h : ev.reply = some .cm) :
+    processEvent cfg st ev =
+      ({ st with queue := ev.srv :: st.queue, disableUdp := true }, none) := by
+  simp [processEvent, h]
+
 theorem choose_tcp (s : Server) (c : Conn) (h : s.tcp.isSome = true) :
     choose s c true = .reused .tcp ∨ choose s c true = .fresh .tcp := by
   by_cases hl : c.liveT = true <;> simp [choose, hl, h]
